@@ -142,6 +142,17 @@ func decodeOperands(instr *InstrMeta, idata ProgramCode, bitmask Bitmask) {
 	}
 }
 
+// operandCode returns the zero-extended code (A.4) from which the operands of an instruction
+// are read: an instruction near the end of the blob may take operand bytes past it, and those
+// bytes are zero. Both engines decode from it.
+func (p *Program) operandCode() ProgramCode {
+	if len(p.zeroExtended) != len(p.InstructionData)+32 {
+		p.zeroExtended = make(ProgramCode, len(p.InstructionData)+32)
+		copy(p.zeroExtended, p.InstructionData)
+	}
+	return p.zeroExtended
+}
+
 // preDecodeBlocks performs a single-pass scan of the entire program blob,
 // populating Program.Instrs, Program.BlockAt, and Program.InstrIdxAt.
 // Called once at the end of DeBlobProgramCode.
@@ -152,8 +163,7 @@ func (p *Program) preDecodeBlocks() ExitReason {
 
 	// Operands are read from the zero-extended code (A.4): an instruction near the end of
 	// the blob may take operand bytes past it, and those bytes are zero.
-	zeroExtended := make(ProgramCode, n+32)
-	copy(zeroExtended, idata)
+	zeroExtended := p.operandCode()
 
 	p.Instrs = make([]InstrMeta, 0, n/4)
 	p.BlockAt = make([]*BlockMeta, n)
